@@ -46,6 +46,8 @@ impl Distance for BinaryQuantizedCosine {
         let pnqn = pn * qn;
         if pnqn != 0.0 {
             let cos = pq / pnqn;
+            // The product of the rounded norms may be slightly smaller than the dot product
+            let cos = cos.clamp(-1.0, 1.0);
             // cos is [-1; 1]
             // cos =  0. -> 0.5
             // cos = -1. -> 1.0
